@@ -31,6 +31,8 @@ def eval_e(e, row):
         return e[1]
     if k == "neg":
         return -eval_e(e[1], row)
+    if k == "rneg":  # negation through a function restricted to one engine type: ("rneg", "it"|"sql", e)
+        return -eval_e(e[2], row)
     if k == "add":
         return eval_e(e[1], row) + eval_e(e[2], row)
     if k == "sub":
@@ -75,6 +77,8 @@ def cols_e(e):
         return frozenset([e[1]])
     if k == "lit":
         return frozenset()
+    if k == "rneg":
+        return cols_e(e[2])
     out = frozenset()
     for x in e[1:]:
         out |= cols_e(x)
@@ -107,7 +111,43 @@ def cols_p(p):
 
 
 def size_e(e):
+    if e[0] == "rneg":
+        return 1 + size_e(e[2])
     return 0 if e[0] in ("ref", "lit") else 1 + sum(size_e(x) for x in e[1:])
+
+
+def restrictions_e(e):
+    """Engine kinds ('it' / 'sql') that engine-restricted functions inside the expression require."""
+    k = e[0]
+    if k in ("ref", "lit"):
+        return frozenset()
+    if k == "rneg":
+        return frozenset([e[1]]) | restrictions_e(e[2])
+    out = frozenset()
+    for x in e[1:]:
+        out |= restrictions_e(x)
+    return out
+
+
+def restrictions_p(p):
+    k = p[0]
+    if k in CMP:
+        return restrictions_e(p[1]) | restrictions_e(p[2])
+    if k in ("and", "or"):
+        out = frozenset()
+        for q in p[1]:
+            out |= restrictions_p(q)
+        return out
+    if k == "not":
+        return restrictions_p(p[1])
+    if k == "inrange":
+        return restrictions_e(p[1])
+    if k == "inseq":
+        out = restrictions_e(p[1])
+        for x in p[2]:
+            out |= restrictions_e(x)
+        return out
+    return frozenset()
 
 
 def size_p(p):
@@ -135,6 +175,8 @@ def fmt_e(e):
         return str(e[1])
     if k == "neg":
         return f"-({fmt_e(e[1])})"
+    if k == "rneg":
+        return f"neg@{e[1]}({fmt_e(e[2])})"
     return f"({fmt_e(e[1])} {dict(add='+', sub='-', mul='*')[k]} {fmt_e(e[2])})"
 
 
@@ -170,6 +212,11 @@ def lib_e(e):
         return ColumnExpression.literal(e[1])
     if k == "neg":
         return lib_e(e[1]).method("__neg__")
+    if k == "rneg":
+        from lsst.daf.relation import iteration, sql
+
+        cls = iteration.Engine if e[1] == "it" else sql.Engine
+        return lib_e(e[2]).method("__neg__", supporting_engine_types=[cls])
     return lib_e(e[1]).method(ARITH[k], lib_e(e[2]))
 
 
@@ -225,6 +272,13 @@ def from_lib_e(x):
     if isinstance(x, ColumnReference):
         return ("ref", x.tag)
     if isinstance(x, ColumnFunction):
+        if x.name == "__neg__" and len(x.args) == 1 and x.supporting_engine_types is not None:
+            from lsst.daf.relation import iteration, sql
+
+            kinds = {("it" if t is iteration.Engine else "sql" if t is sql.Engine else "?") for t in x.supporting_engine_types}
+            if len(kinds) == 1 and "?" not in kinds:
+                return ("rneg", kinds.pop(), from_lib_e(x.args[0]))
+            raise Undecodable(repr(x))
         if x.name == "__neg__" and len(x.args) == 1:
             return ("neg", from_lib_e(x.args[0]))
         if x.name in _ARITH_BACK and len(x.args) == 2:
@@ -275,11 +329,15 @@ def from_lib_p(x):
 
 
 @st.composite
-def st_expr(draw, cols, depth=2, need_ref=False, lit=st.integers(-3, 3)):
-    """Expressions over `cols` (a collection of tags).  need_ref forces at least one column reference."""
+def st_expr(draw, cols, depth=2, need_ref=False, lit=st.integers(-3, 3), restricted=0):
+    """Expressions over `cols` (a collection of tags).  need_ref forces at least one column reference.
+    `restricted` is the percentage of expressions wrapped in an engine-restricted function."""
     cols = sorted_tags(cols)
     if need_ref and not cols:
         raise ValueError("need_ref with no columns")
+    if restricted and draw(st.integers(0, 99)) < restricted:
+        inner = draw(st_expr(cols, max(depth - 1, 0), need_ref, lit, 0))
+        return ("rneg", draw(st.sampled_from(["it", "sql"])), inner)
     r = draw(st.integers(0, 99)) if depth > 0 else 0
     if r < 45:
         if cols and (need_ref or draw(st.integers(0, 2)) > 0):
